@@ -28,8 +28,8 @@ const (
 // committee index) that distinguishes them. gen selects the table generation (bumped by a reorg).
 type vBeacon struct {
 	Client
-	present [2][vEpochs][vVals][1]bool
-	tag     [2][vEpochs][vVals][1]byte
+	present [2][vEpochs][vVals][2]bool
+	tag     [2][vEpochs][vVals][2]byte
 	gen     int
 	calls   int
 	lastEp  eth2p0.Epoch
@@ -53,7 +53,7 @@ func (b *vBeacon) ProposerDuties(_ context.Context, opts *eth2api.ProposerDuties
 	var out []*eth2v1.ProposerDuty
 	e := int(opts.Epoch - vE0)
 	for v := 0; v < vVals; v++ {
-		for j := 0; j < 1; j++ {
+		for j := 0; j < 2; j++ {
 			if e >= 0 && e < vEpochs && b.present[b.gen][e][v][j] && b.wants(opts.Indices, v) {
 				out = append(out, &eth2v1.ProposerDuty{ValidatorIndex: eth2p0.ValidatorIndex(v), Slot: eth2p0.Slot(b.tag[b.gen][e][v][j])})
 			}
@@ -68,7 +68,7 @@ func (b *vBeacon) AttesterDuties(_ context.Context, opts *eth2api.AttesterDuties
 	var out []*eth2v1.AttesterDuty
 	e := int(opts.Epoch - vE0)
 	for v := 0; v < vVals; v++ {
-		for j := 0; j < 1; j++ {
+		for j := 0; j < 2; j++ {
 			if e >= 0 && e < vEpochs && b.present[b.gen][e][v][j] && b.wants(opts.Indices, v) {
 				out = append(out, &eth2v1.AttesterDuty{ValidatorIndex: eth2p0.ValidatorIndex(v), Slot: eth2p0.Slot(b.tag[b.gen][e][v][j])})
 			}
@@ -83,7 +83,7 @@ func (b *vBeacon) SyncCommitteeDuties(_ context.Context, opts *eth2api.SyncCommi
 	var out []*eth2v1.SyncCommitteeDuty
 	e := int(opts.Epoch - vE0)
 	for v := 0; v < vVals; v++ {
-		for j := 0; j < 1; j++ {
+		for j := 0; j < 2; j++ {
 			if e >= 0 && e < vEpochs && b.present[b.gen][e][v][j] && b.wants(opts.Indices, v) {
 				out = append(out, &eth2v1.SyncCommitteeDuty{ValidatorIndex: eth2p0.ValidatorIndex(v),
 					ValidatorSyncCommitteeIndices: []eth2p0.CommitteeIndex{eth2p0.CommitteeIndex(b.tag[b.gen][e][v][j])}})
@@ -155,9 +155,14 @@ func VerifC20Cache() {
 	for g := 0; g < 2; g++ {
 		for e := 0; e < vEpochs; e++ {
 			for v := 0; v < vVals; v++ {
-				for j := 0; j < 1; j++ {
+				for j := 0; j < 2; j++ {
 					b.present[g][e][v][j] = vrt.Bool(vrt.N("present", g, e, v, j))
 					b.tag[g][e][v][j] = vrt.Byte(vrt.N("tag", g, e, v, j))
+					if j == 1 {
+						// a second duty of the same validator in the epoch (proposers can have several): only with "two"=1,
+						// and with a different tag (slot) than the first
+						vrt.Assume(!b.present[g][e][v][1] || (vrt.Param("two") == 1 && b.present[g][e][v][0] && b.tag[g][e][v][1] != b.tag[g][e][v][0]))
+					}
 					if g == 1 && e == 0 {
 						// a reorg back to epoch vE0 leaves that epoch's assignment unchanged
 						vrt.Assume(b.present[1][0][v][j] == b.present[0][0][v][j] && b.tag[1][0][v][j] == b.tag[0][0][v][j])
@@ -211,7 +216,7 @@ func VerifC20Cache() {
 				// oracle: the beacon node's own answer for this request
 				expected := 0
 				for v := 0; v < vVals; v++ {
-					for j := 0; j < 1; j++ {
+					for j := 0; j < 2; j++ {
 						if (want[v] || none) && b.present[b.gen][eIdx][v][j] {
 							expected++
 							found := false
@@ -304,12 +309,25 @@ func VerifC20Intf() {
 	ia, ib := drawIdx("ia", vrt.Param("na")), drawIdx("ib", vrt.Param("nb"))
 	var rb vRes
 	var errB error
-	vrt.Interfere(func() { rb, errB = vAsk(c, typ, vE0, ib) })
+	// what the other thread does: 0 a request (index set ib), 1 a reorg invalidation of the epoch, 2 a trim past it
+	kindB := vrt.Param("intfkind")
+	vrt.Interfere(func() {
+		switch kindB {
+		case 0:
+			rb, errB = vAsk(c, typ, vE0, ib)
+		case 1:
+			c.InvalidateCache(context.Background(), vE0-1) // reorg back to the epoch before: epoch vE0 is dropped
+		default:
+			c.Trim(eth2p0.Epoch(vE0 + 1 + dutiesCacheTrimThreshold))
+		}
+	})
 	ra, errA := vAsk(c, typ, vE0, ia)
 	vrt.Assume(vrt.InterfererRan())
 	vrt.Assert("overlapping requests succeed", errA == nil && errB == nil)
 	check("overlapping request A", ra, ia)
-	check("overlapping request B", rb, ib)
+	if kindB == 0 {
+		check("overlapping request B", rb, ib)
+	}
 	// what the cache serves afterwards
 	ic := drawIdx("ic", vrt.Param("nc"))
 	rc, errC := vAsk(c, typ, vE0, ic)
